@@ -65,7 +65,7 @@ def CodeVariant.repaired : CodeVariant :=
 /-- THE CODE AS IT IS.  Flip fields (or the whole value to `CodeVariant.repaired`) after the
 corresponding `fix:` commit; the first line of the correspondence stream (`variant`) shows
 which fields disagree with the implementation. -/
-def CodeVariant.impl : CodeVariant := CodeVariant.pinned
+def CodeVariant.impl : CodeVariant := CodeVariant.repaired
 
 /-! ## Durations: `to_duration` / `from_duration` -/
 
